@@ -279,6 +279,23 @@ pub fn gen_case(r: &mut Rng, tier: &str) -> IoCase {
     IoCase { fastq, eol, wrap, fin, recs, container, suffix }
 }
 
+/// many short records: record counts around powers of two and far beyond (block-wise readers, look-ahead queues, 16-bit counters)
+pub fn gen_many(r: &mut Rng, nrec: usize) -> IoCase {
+    let fastq = r.chance(2, 5);
+    let mut recs = Vec::new();
+    for i in 0..nrec {
+        let len = if fastq { r.range(1, 9) as usize } else { r.range(0, 9) as usize };
+        let seq = gen::clean_seq(r, len, gen::FLAVORS[0].1);
+        let qual = if fastq { graph(r, len, b"") } else { vec![] };
+        recs.push(Src { id: format!("r{}", i).into_bytes(), desc: None, seq, qual });
+    }
+    let eol = if r.chance(1, 4) { b"\r\n".to_vec() } else { b"\n".to_vec() };
+    let wrap = *r.pick(&[3usize, 60, 100000]);
+    let container = r.pick(&["plain", "gzc", "gzm"]).to_string();
+    let suffix = if fastq { ".fq" } else { ".fa" }.to_string();
+    IoCase { fastq, eol, wrap, fin: r.chance(2, 3), recs, container, suffix }
+}
+
 fn expected(c: &IoCase) -> String {
     let v: Vec<(usize, Vec<u8>, Vec<u8>)> = c
         .recs
@@ -431,6 +448,15 @@ pub fn run_c06(tier: &str, seed: u64, model: &Model, corpus_lines: Vec<String>, 
             fix_container(&mut c, &mut rng);
             cases.push(c);
         }
+        let mut counts: Vec<usize> = vec![255, 256, 257, 1023, 1024, 1025, 2049, 4097, 65_537];
+        for _ in 0..(if tier == "thorough" { 12 } else { 3 }) {
+            counts.push(rng.range(100, if tier == "thorough" { 40_000 } else { 9_000 }) as usize);
+        }
+        for n in counts {
+            let mut c = gen_many(&mut rng, n);
+            fix_container(&mut c, &mut rng);
+            cases.push(c);
+        }
     }
     for (i, c) in cases.iter().enumerate() {
         let section = if i < ncorpus { "corpus" } else { "files" };
@@ -438,7 +464,7 @@ pub fn run_c06(tier: &str, seed: u64, model: &Model, corpus_lines: Vec<String>, 
         rep.count(&format!("{}/format:{}", section, if c.fastq { "fastq" } else { "fasta" }), 1);
         rep.count(&format!("{}/container:{}", section, c.container.split(':').next().unwrap()), 1);
         rep.count(&format!("{}/eol:{}", section, if c.eol.len() == 2 { "crlf" } else { "lf" }), 1);
-        rep.count(&format!("{}/records:{}", section, match c.recs.len() { 0 => "0", 1 => "1", 2..=9 => "2-9", _ => "10+" }), 1);
+        rep.count(&format!("{}/records:{}", section, match c.recs.len() { 0 => "0", 1 => "1", 2..=9 => "2-9", 10..=99 => "10-99", _ => "100+" }), 1);
         let uid = format!("{}_{}", seed, i);
         progress(&c.req());
         match eval_case(c, model, work, &uid) {
